@@ -142,7 +142,7 @@ def project_result(api, r):
     return {"single": -1, "value": to_term(r), "tags": []}
 
 
-STABLE_APIS = ("read", "write", "generic", "_list_identity", "get_module_info", "get_plc_info", "get_plc_name", "get_plc_time")
+STABLE_APIS = ("read", "write", "generic", "_list_identity", "list_identity", "get_module_info", "get_plc_info", "get_plc_name", "get_plc_time")
 
 
 def make_driver(sc):
@@ -221,6 +221,8 @@ def do_call(drv, c):
         return drv.get_tag_list(c.get("program"))
     if api == "_list_identity":
         return drv._list_identity()
+    if api == "list_identity":                 # the classmethod: its own driver object, session and socket
+        return type(drv).list_identity(c["path"])
     if api == "peek_sequence":             # consumes one count and returns it
         return next(drv._sequence)
     if api == "advance_sequence":          # public generator object of the driver: consume counts without sending
